@@ -242,6 +242,11 @@ class Check:
     trusted_base: list = []
     assumptions: list = []
     level = "proof"
+    # MANIFEST metadata (tools/mkmanifest.py reads these)
+    level_text = ""
+    level_note = ""
+    technique = "Coq proof over an executable model + extracted-model correspondence + oracle search"
+    design_ref = ""
     correspondence_name = "model-vs-implementation"
     search_budget = {"quick": 60, "thorough": 600}
 
